@@ -217,6 +217,18 @@ let () =
         end in
       Printf.printf "%s\twf=%d kinds=%s bytes=%s dec=%s err=%s cuts=%s\n" id (if wf then 1 else 0) kinds (fmt_bytes stream)
         (fmt_list fmt_msg full) (derr_name e) (run_cuts codec local remote stream full cuts)
+    | id :: "L" :: codec :: local :: remote :: payload :: _ ->
+      (* a sequence of connections: for each one a fresh encoder and a fresh decoder (Model.v conns_run) *)
+      let local = n_of_hex local and remote = n_of_hex remote in
+      let conns = List.map (fun c -> List.map msg_of (kids c)) (kids (parse_tree payload)) in
+      let v2 = (codec = "v2") in
+      let wf = List.for_all (fun ms -> if v2 then v2_seq_ok local remote st0 ms else plain_seq_ok ms) conns in
+      let results = if v2 then conns_run local remote (conns_encode conns)
+                    else List.map plain_run (List.map plain_encode_all conns) in
+      let parts = List.map (fun (ms, e) ->
+        let ms = List.filter (fun m -> m <> link_heartbeat) ms in
+        Printf.sprintf "dec=%s err=%s" (fmt_list fmt_msg ms) (derr_name e)) results in
+      Printf.printf "%s\t%s\n" id (String.concat " | " (Printf.sprintf "wf=%d" (if wf then 1 else 0) :: parts))
     | id :: "R" :: codec :: local :: remote :: payload :: cuts :: _ ->
       let local = n_of_hex local and remote = n_of_hex remote in
       let stream = bytes_of_tok payload in
